@@ -130,6 +130,9 @@ def gen_case(seed, tier, index=0):
         env["cwd"] = rng.pick(subdirs)
         if not world.get("git") or rng.chance(0.5):
             root_opt = ["--root", ".."]
+    if rng.chance(0.12):
+        # the user's locale is not UTF-8 (LC_ALL=C without Python's coercion); holders' names are not ASCII
+        env["env"] = {"LC_ALL": "C", "LANG": "C", "PYTHONUTF8": "0", "PYTHONCOERCECLOCALE": "0"}
     lint = dict(env, argv=root_opt + (["--no-multiprocessing"] if serial else []) + ["lint", "--json"])
     if pool:
         lint["pool"] = pool
